@@ -34,8 +34,13 @@ struct Acc {
     write: u64,
     panics: u64,
 }
+static TRACE: std::sync::atomic::AtomicBool = std::sync::atomic::AtomicBool::new(false);
+
 impl Acc {
     fn add(&mut self, bytes: &[u8]) {
+        if TRACE.load(std::sync::atomic::Ordering::Relaxed) {
+            println!("  add {:?}", String::from_utf8_lossy(bytes));
+        }
         for &b in bytes {
             self.h = (self.h ^ b as u64).wrapping_mul(0x100000001b3);
         }
@@ -477,7 +482,13 @@ fn main() {
     std::panic::set_hook(Box::new(|_| {}));
     let mut r = Rng(seed ^ 0x6d69_7269);
     let mut acc = Acc { h: 0xcbf29ce484222325, parse: 0, write: 0, panics: 0 };
-    for _ in 0..cases {
+    let trace = args.get(3).map(|s| s == "trace").unwrap_or(false);
+    TRACE.store(trace, std::sync::atomic::Ordering::Relaxed);
+    for case_no in 0..cases {
+        if trace {
+            // running hash before each case: the first line that differs between two executions names the case
+            println!("CASE {case_no} {:016x} parse={} write={}", acc.h, acc.parse, acc.write);
+        }
         let mut kinds: Vec<u32> = vec![0, 1, 2, 3];
         if cfg!(feature = "radix") {
             kinds.extend([10, 11, 12, 13, 14, 15, 16, 17]);
